@@ -384,6 +384,13 @@ theorem genericTrailer_length (b : Bytes) (g : StreamLayout.GenericTrailer)
   · exfalso
     simp [StreamLayout.genericTrailer, u64At_none b 20 (by omega)] at h
 
+theorem imageLeader_length (b : Bytes) (s : StreamLayout.ImageLeader)
+    (h : StreamLayout.imageLeader b = some s) : 52 ≤ b.length := by
+  by_cases h52 : 52 ≤ b.length
+  · exact h52
+  · exfalso
+    simp [StreamLayout.imageLeader, u16At_none b 50 (by omega)] at h
+
 end SpecMaps
 
 /-! ### `Res` plumbing -/
@@ -401,6 +408,9 @@ theorem bind_ne_panic {ε α β : Type} {x : Res ε α} {f : α → Res ε β}
 
 theorem mapErr_eq_ok {α : Type} {x : R α} {a : α} : mapErr x = .ok a ↔ x = .ok a := by
   cases x <;> simp [mapErr]
+
+theorem mapErr_ok' {α : Type} {x : R α} {a : α} (h : x = .ok a) : mapErr x = .ok a := by
+  rw [h]; rfl
 
 theorem mapErr_ne_panic {α : Type} {x : R α} (h : x ≠ .panic) : mapErr x ≠ .panic := by
   cases x <;> simp_all [mapErr]
